@@ -23,11 +23,11 @@ CLAIMED = {
          "trace validation of emitted machine code on a TLA+ ISA model (simulated architecture)"),
  "C16": ("model_checking", "patch_arm.rs compiled on the host against a simulated memory; TLC executes the 12 entry bytes on A32T32.tla (PC+8 / Align(PC+4,4) literal addressing, BX interworking) for A32, T32@0mod4, T32@2mod4 x ARM/Thumb fakes: the loaded word is the fake incl. Thumb bit, saved range = written range, no callee-saved register written.", "5 C16",
          "trace validation of emitted machine code on a TLA+ ISA model (simulated architecture)"),
- "C01": ("model_checking", "MC_Geom: every placement (function incl. page-straddling entries, trampoline page, fake) of a scaled address space executed on the model; on the real library a lattice of placements (rel32 boundary +/-6, window extremes, low/high addresses, page offsets 4084..4095) + seeded random is installed in child processes, and TLC executes the recorded entry/trampoline bytes on X64.tla (64-bit arithmetic on byte sequences) and compares with the CPU's answer.", "5 C01",
+ "C01": ("model_checking", "MC_Geom: every placement (function incl. page-straddling entries, trampoline page, fake) of a scaled address space executed on the model; on the real library a lattice of placements (rel32 boundary +/-6, window extremes, low/high addresses, page offsets 4084..4095) + seeded random is installed in child processes, and TLC executes the recorded entry/trampoline bytes on X64.tla (64-bit arithmetic on byte sequences) and compares with the CPU's answer; targets with unusual prologues (endbr64, forwarding thunks); the encoder arithmetic for all from<2^47, to<2^63 by Apalache (Apa_Encoder).", "5 C01",
          "TLC model check of scaled geometry + trace validation of recorded machine code on an ISA model"),
  "C05": ("model_checking", "panic at every enabled point of the lifecycle model (user code, fake rejecting/over-called and not caught, refused installation, mmap exhaustion, mprotect failure, verifier at exit) with NoAbort / Reusable / IdleClean / Restored as invariants; every behaviour replayed with real panics and injected OS faults in child processes, chained over consecutive lifetimes, followed by a fresh thread; traces validated by TLC (Trace_Api, Props={C05}).", "5 C05",
          "TLC exhaustive model check + fault-injecting replay + trace validation"),
- "C06": ("model_checking", "MC_Times: all interleavings of concurrent callers against the atomic counter; sequential behaviours replayed on real fake! fakes; concurrent rounds (up to 16 threads) recorded as CallStart/CallEnd and linearised by TLC (Trace_Times).", "5 C06",
+ "C06": ("model_checking", "MC_Times: all interleavings of concurrent callers against the atomic counter; sequential behaviours replayed on real fake! fakes; concurrent rounds (up to 16 threads) recorded as CallStart/CallEnd and linearised by TLC (Trace_Times); tight-loop bursts; lifetimes on many threads built through one shared fake! line; inductive invariant for every N by Apalache (Apa_Counter).", "5 C06",
          "TLC exhaustive model check + replay + linearisability check of recorded concurrent traces by TLC"),
  "C07": ("model_checking", "FreshCount as an action property of the lifecycle model over >=2 lifetimes evaluating the same site; behaviours replayed with the model's site mapped to one real fake! expansion site reused across lifetimes.", "5 C07",
          "TLC model check + spec->impl replay over consecutive lifetimes"),
@@ -73,7 +73,7 @@ def main():
                       "kind_free_text": "TLA+ specification (spec/*.tla) model-checked by TLC; Rust conformance harness (harness/) replays TLC behaviours on the real library and records traces that TLC validates against the specification"}],
          "checks": checks,
          "not_applicable": na,
-         "notes": "see DESIGN.md; known findings in KNOWN_FINDINGS.jsonl"}
+         "notes": "see DESIGN.md (section 5: what each check does; section 6: nine defects found and fixed; section 9: seeded-defect study); python3 tools/check.py selftest runs the deviation switches, the two-level consistency check and the trace corruptions; known findings in KNOWN_FINDINGS.jsonl (all fixed)"}
     json.dump(m, open(os.path.join(VERIF, "MANIFEST.json"), "w"), indent=1)
     print("claimed:", sorted(CLAIMED), "not yet:", [x["property_id"] for x in na])
 
